@@ -45,3 +45,37 @@ Fixpoint trace (strict : bool) (y : sys) (ops : list op) : list obs :=
 Definition chk_channel (c : bool * Z * Z * list op * list obs) : bool :=
   let '(strict, window, pktsize, ops, got) := c in
   list_eqb obs_eqb (trace strict (init_sys window pktsize) ops) got.
+
+(* ---- several channels on one connection (Model/MultiChannel.v) --------------------------------- *)
+From AV Require Import Model.MultiChannel.
+
+Definition tpkt_eqb (a b : Z * pkt) : bool := (fst a =? fst b) && pkt_eqb (snd a) (snd b).
+
+(* observation after each op: per channel (0..n-1) the tokens handed to its session, the shared
+   forward wire, the shared backward wire (adjusts only), error flag *)
+Definition mobs := (list (list tok) * list (Z * pkt) * list (Z * pkt) * bool)%type.
+
+Fixpoint zrange (n : nat) : list Z :=
+  match n with O => [] | S k => zrange k ++ [Z.of_nat k] end.
+
+Definition mobserve (n : nat) (c : conn) : mobs :=
+  (map (fun j => r_out (c_rcv c j)) (zrange n), c_fwd c, c_back c,
+   existsb (fun j => r_err (c_rcv c j)) (zrange n)).
+
+Definition mobs_eqb (a b : mobs) : bool :=
+  let '(o1, f1, b1, e1) := a in
+  let '(o2, f2, b2, e2) := b in
+  if e2 then e1
+  else list_eqb (list_eqb tok_eqb) o1 o2 && list_eqb tpkt_eqb f1 f2 && list_eqb tpkt_eqb b1 b2 && negb e1.
+
+Fixpoint mtrace (strict : bool) (n : nat) (c : conn) (ms : list mop) : list mobs :=
+  match ms with
+  | [] => []
+  | m :: r => let c' := mstep strict c m in mobserve n c' :: mtrace strict n c' r
+  end.
+
+Definition chk_multi (c : list Z * list Z * list mop * list mobs) : bool :=
+  let '(windows, pktsizes, ms, got) := c in
+  let w := fun i => nth (Z.to_nat i) windows 1 in
+  let p := fun i => nth (Z.to_nat i) pktsizes 1 in
+  list_eqb mobs_eqb (mtrace true (length windows) (conn_init w p) ms) got.
